@@ -133,6 +133,16 @@ Eleventh round (k) - re-entrancy: the breakage shows only when the application c
 * **C15-k** (a non-re-entrant lock around the listener's emit and disconnect handling): a remotely requested disconnect whose handler broadcasts "user left" from inside the listener.
 * **C16-k** (the transport's sessions cleared after the first namespace's handler): the disconnect handlers read the session of the client that is leaving.
 * **C19-k** (connect() creates fresh event objects): the application's consumer is started before connect() is called on the same object.
+
+Twelfth round (l) - the aftermath of a failed, refused or timed-out operation: the failing operation itself behaves as before, what it leaves behind (or the next normal operation) is wrong. 7 of 18 missed at first, all reported after strengthening:
+
+* **C02-l** (a client call() that times out releases the namespace's whole callback table, counter included): at the end of a run, a call() with a 0.05 s timeout to a handler that takes 0.2 s, then a normal call() while the late answer is on its way - in both directions (the server-side twin, C06-l, is reported by the same phase). Also reported by C09 (`id_not_unique`).
+* **C07-l** (a failed publish of an emit with a callback wipes the client's callback table): the simulated bus can fail one publish of one host; an emit with a callback to a remote client whose publish fails must leave what was outstanding before, and what is issued afterwards, alone.
+* **C10-l** (a refused second connect() overwrites the remembered connection parameters): while connected the application calls connect() again with another URL, headers, auth, transports and namespaces and is told "Already connected".
+* **C13-l** (a negative routing cache that register_namespace() does not clear): an event without any target is dropped, then a class-based namespace (for the namespace or '*') that handles it is registered and the event arrives again.
+* **C15-l** (the decoded value of the previous message is kept after a failure outside the per-message try): a value that is not a message at all, directly followed by a valid message from a publisher that writes JSON text.
+* **C16-l** (a refused connect clears the transport's whole session dict): a further namespace is requested and refused (False / ConnectionRefusedError); the client's sessions on its other namespaces are read afterwards.
+* **C18-l** (the instrumentation drops its bookkeeping on any exception from a connect handler): an application connect handler that fails with something other than a refusal, after which that client goes away.
 """
 
 
